@@ -11,3 +11,7 @@ import Props.C20
 #print axioms C20.deadlock_without_order
 #print axioms C20.recursive_rlock_deadlocks
 #print axioms C20.escape_rule_unsatisfiable
+#print axioms C20.buffered_producer_never_blocks
+#print axioms C20.unbuffered_blocked_iff_consumer_left
+#print axioms C20.unbuffered_blocked_forever
+#print axioms C20.unbuffered_one_shot_can_block
